@@ -88,7 +88,7 @@ func CopyObjectProperties(to, from *Object) (*Object, error) {
 	}
 	to.Summary = replaceIfNaturalLanguageValues(to.Summary, from.Summary)
 	to.Tag = replaceIfItemCollection(to.Tag, from.Tag)
-	if !IsNil(from.URL) {
+	if !IsNil(from.URL) && !isEmptyList(from.URL) {
 		to.URL = from.URL
 	}
 	to.To = replaceIfItemCollection(to.To, from.To)
@@ -228,10 +228,25 @@ func UpdatePersonProperties(to, from *Actor) (*Actor, error) {
 // carry nothing either (the *New constructors and the gob decoder leave empty non-nil lists behind)
 
 func replaceIfItem(old, new Item) Item {
-	if IsNil(new) {
+	if IsNil(new) || isEmptyList(new) {
 		return old
 	}
 	return new
+}
+
+// isEmptyList: an item property can hold a list; an empty one ("attachment":[] decodes to it) carries nothing
+func isEmptyList(it Item) bool {
+	switch l := it.(type) {
+	case ItemCollection:
+		return len(l) == 0
+	case *ItemCollection:
+		return l != nil && len(*l) == 0
+	case IRIs:
+		return len(l) == 0
+	case *IRIs:
+		return l != nil && len(*l) == 0
+	}
+	return false
 }
 
 func replaceIfItemCollection(old, new ItemCollection) ItemCollection {
